@@ -1061,6 +1061,7 @@ def sec_flags(run):
     run.sample({"flag_case": items[3][0], "term": items[3][1][:200]})
     # semantic check of every accepted gate against the state vector (test): prepare a generic stabiliser state first
     fired = False
+    ign = []
     for (lab, nc, g, fl_, nq) in metas:
         if g is None or not fl_:
             continue
@@ -1084,6 +1085,18 @@ def sec_flags(run):
             cs = ",".join(str(q) for q in range(nc))
             if nc and gg_.control_qubits and not set(gg_.control_qubits) <= set(gg_.init_args):
                 fired = True
+                # tie of execute_ignores_controls: the backend's tableau is exactly the tableau of the bare gate
+                from qibo import Circuit as _C, gates as _g
+                def _circ(with_ctrl):
+                    c_ = _C(n)
+                    for q_ in range(n):
+                        c_.add(_g.H(q_))
+                    g_ = mk0(qs)
+                    c_.add(g_.controlled_by(*range(nc)) if with_ctrl else g_)
+                    return c_
+                Ta, _ = real_tableau(b, _circ(True))
+                Tb, _ = real_tableau(b, _circ(False))
+                ign.append(bool(np.array_equal(Ta, Tb)))
                 report(run, f"controlled_flag:{name}{ang}.controlled_by({cs})",
                        f"{name}{ang}({','.join(map(str, qs))}).controlled_by({cs}).clifford is True; apply_gate_clifford passes only "
                        f"init_args={list(gg_.init_args)} to the engine, the control qubits are dropped and the bare gate is simulated "
@@ -1099,6 +1112,9 @@ def sec_flags(run):
             else:
                 report(run, f"flag_semantics:{lab}/c{nc}", f"{lab} with {nc} controls is flagged Clifford but the simulated state is not the "
                        f"state-vector result (defect {d:.3f})", {"kind": "flag_semantics", "gate": lab, "controls": nc, "nq": nq})
+    if ign:
+        run.oblige(f"correspondence:execution ignores control qubits (theorem execute_ignores_controls): tableau of g.controlled_by(...) == "
+                   f"tableau of the bare g, {len(ign)} flagged generically-controlled gates", all(ign), "correspondence")
     if fired:
         run.refuted.append("controlled_flag_ok")
 
